@@ -497,6 +497,7 @@ package intermediate
 //@ pure aggOK(a *AggregationProcess, rin entities.Record, rex entities.Record) bool = cfg(a) != nil ==> statsLens(a) && statsNamesDistinct(a) && thrNamesDistinct(a) && aggFields(a, rin, rex)
 
 //@ pure isDeltaName(n string) bool = contains(n, "Delta")
+//@ pure wrapSub64(x int) int = x < 0 ? x + 18446744073709551616 : x
 //@ // 64-bit unsigned addition of two in-range values wraps at most once
 //@ pure wrap64(x int) int = x >= 18446744073709551616 ? x - 18446744073709551616 : x
 //@ // nodeStat(a, rin, rex, i, j, l, src): element l of the aggregated record is the per-node counter i of that node and element j of the incoming
@@ -554,6 +555,15 @@ package intermediate
 //@   loop 2 invariant end:  forall j in [0, len(recList(incomingRecord))): forall l in [0, len(recList(existingRecord))): isFirst(incomingRecord, "flowEndSeconds", j) && isFirst(existingRecord, "flowEndSeconds", l) ==>
 //@                  u32v(recList(existingRecord)[l]) == max(old(u32v(recList(existingRecord)[l])), u32v(recList(incomingRecord)[j]))
 //@   loop 2 invariant nz:   flowEndSecondsDiff > 0
+//@   // the locals from which throughput is computed: the growth of the reporting node's forward / reverse octet total (one reporting node per call)
+//@   loop 2 invariant fwd:  (fillSrcStats != fillDstStats) && 0 <= i0 && i0 < $i && !isDeltaName(cfg(a).StatsElements[i0]) && 0 <= j0 && j0 < len(recList(incomingRecord)) && 0 <= l0 && l0 < len(recList(existingRecord))
+//@                  && isFirst(incomingRecord, cfg(a).StatsElements[i0], j0) && isFirst(existingRecord, nodeName(a, i0, fillSrcStats), l0)
+//@                  && nodeName(a, i0, fillSrcStats) == (fillSrcStats ? "octetTotalCountFromSourceNode" : "octetTotalCountFromDestinationNode")
+//@                  ==> totalCountDiff == wrapSub64(u64v(recList(incomingRecord)[j0]) - old(u64v(recList(existingRecord)[l0])))
+//@   loop 2 invariant rev:  (fillSrcStats != fillDstStats) && 0 <= i0 && i0 < $i && !isDeltaName(cfg(a).StatsElements[i0]) && 0 <= j0 && j0 < len(recList(incomingRecord)) && 0 <= l0 && l0 < len(recList(existingRecord))
+//@                  && isFirst(incomingRecord, cfg(a).StatsElements[i0], j0) && isFirst(existingRecord, nodeName(a, i0, fillSrcStats), l0)
+//@                  && nodeName(a, i0, fillSrcStats) == (fillSrcStats ? "reverseOctetTotalCountFromSourceNode" : "reverseOctetTotalCountFromDestinationNode")
+//@                  ==> reverseTotalCountDiff == wrapSub64(u64v(recList(incomingRecord)[j0]) - old(u64v(recList(existingRecord)[l0])))
 //@   loop 2 invariant comdone: isLatest && (fillSrcStats != fillDstStats) && i0 < $i ==> commonStat(a, incomingRecord, existingRecord, i0, j0, lc0, l0, fillSrcStats)
 //@   loop 2 invariant comtodo: !isLatest || i0 >= $i ==> commonKept(a, existingRecord, i0, lc0)
 //@   loop 2 invariant srcdone: fillSrcStats && i0 < $i ==> nodeStat(a, incomingRecord, existingRecord, i0, j0, l0, true)
